@@ -408,19 +408,19 @@ def rule_r7(F, rep):
 
 
 def run(F, rep, tier):
-    rule_r1(F, rep)
-    rule_r2(F, rep)
-    rule_r3(F, rep)
+    rep.attempt(rule_r1, F, rep)
+    rep.attempt(rule_r2, F, rep)
+    rep.attempt(rule_r3, F, rep)
     from . import objflags
-    objflags.rule(F, rep, "C02.R4")
-    rule_r5(F, rep)
-    rule_r6(F, rep)
-    rule_r7(F, rep)
+    rep.attempt(objflags.rule, F, rep, "C02.R4")
+    rep.attempt(rule_r5, F, rep)
+    rep.attempt(rule_r6, F, rep)
+    rep.attempt(rule_r7, F, rep)
     from . import c07
-    c07.rule_r5(F, rep)      # super / +: inside a field resolve from the layer the field was found in
+    rep.attempt(c07.rule_r5, F, rep)      # super / +: inside a field resolve from the layer the field was found in
     from . import visibility
-    visibility.rule(F, rep, "C07.R4")
-    visibility.rule_partition(F, rep, "C07.R6")
+    rep.attempt(visibility.rule, F, rep, "C07.R4")
+    rep.attempt(visibility.rule_partition, F, rep, "C07.R6")
     rep.assume("value-level semantics (arithmetic results, environments, defaults, inheritance) are not decided: "
                "no reference interpreter is in reach of static analysis")
     rep.trust("Jsonnet specification operator typing, transcribed in rules/c02.py")
